@@ -4,6 +4,7 @@ Requests carry `"p"` (property / model family) and `"op"`.  The driver executes 
 definitions the theorems in `PeroVerif/Props` talk about (no `implemented_by`).
 -/
 import PeroVerif.Drv.Common
+import PeroVerif.Drv.C01
 import PeroVerif.Drv.C02
 import PeroVerif.Drv.C04
 import PeroVerif.Drv.C05
@@ -17,6 +18,7 @@ open Lean Drv
 
 def dispatch (p : String) : Option Handler :=
   match p with
+  | "C01" => some Drv.C01.handle
   | "C02" => some Drv.C02.handle
   | "C03" => some Drv.C02.handle
   | "C04" => some Drv.C04.handle
